@@ -113,6 +113,18 @@ def run(spec, res):
         res.hook('wellformed.eval')
         bad = snapshot.wellformed(out)
         bad += unlimited_rule(pre['dims'], out, ops.is_ioapi(out))
+        if st.op == 'renamedim':
+            # a renamed dimension survives under its new name
+            o, n = st.meta['old'], st.meta['new']
+            if n not in out.dimensions:
+                bad.append('renamed dimension %s missing' % n)
+            elif bool(out.dimensions[n].isunlimited()) != pre['dims'][o][1]:
+                bad.append('dimension %s renamed to %s: unlimited flag %s '
+                           '-> %s' % (o, n, pre['dims'][o][1],
+                                      bool(out.dimensions[n].isunlimited())))
+            elif len(out.dimensions[n]) != pre['dims'][o][0]:
+                bad.append('dimension %s renamed to %s: length changed'
+                           % (o, n))
         res.ev(dg, len(list(out.variables.keys())) > 0)
         if bad:
             res.viol('malformed-result:' + st.op, '%s -> %s (program %s)'
